@@ -486,9 +486,12 @@ func cmdCheck(o checkOpts) int {
 				if smp.End != "ok" || smp.Model == nil {
 					continue
 				}
+				// traces with a killed or failing probe depend on the real scheduler's timing
+				// (who is cancelled before it starts): only failure-free traces are compared
 				hasK := false
 				for _, l := range smp.Trace {
-					if strings.Contains(l, " K ") {
+					f := strings.Fields(l)
+					if strings.Contains(l, " K ") || (len(f) >= 4 && f[1] == "F" && f[3] != "0") {
 						hasK = true
 					}
 				}
